@@ -676,6 +676,19 @@ fn seed_texts(label: &str, seeds: &Arc<Vec<Seed>>, cfgs: &[Cfg], f: fn(&str, &Cf
     sf(label, seeds, cfgs, Box::new(move |s, c, ctx| f(&s.text, c, ctx)))
 }
 
+/// derivation features that explain width-dependent choices the optimiser makes on the pinned tree
+/// (they become part of a C11 signature): an anonymous routine (the parser only knows them in plain
+/// statements) or a raise statement (its expression parser stops at `^`)
+fn c11_tag(toks: &[crate::grammar::GTok]) -> Option<&'static str> {
+    if toks.iter().any(|t| t.marks & crate::grammar::M_A != 0) {
+        Some("program-with-anonymous-routine")
+    } else if toks.iter().any(|t| t.text == "raise") {
+        Some("program-with-raise-statement")
+    } else {
+        None
+    }
+}
+
 /// deep-nesting programs through the base layouts
 fn deep_variants(label: &str, g: &Arc<Grammar>, d: usize, max_depth: usize, cfgs: &[Cfg], f: fn(&str, &Cfg, &mut Ctx)) -> Box<dyn Family> {
     Box::new(progs::DeepFamily {
@@ -1237,7 +1250,9 @@ pub fn families(check: &str, tier: &str) -> Vec<Box<dyn Family>> {
             ]
         }
         "C11" => {
-            let ws: &'static [u32] = if quick { &W_QUICK } else { &W_FULL };
+            // a dense range of widths (every column from 8 to 130) plus a few large ones
+            let ws: Vec<u32> = if quick { (8..=100).chain([120, 160, 200, 4294967295]).collect() } else { (8..=140).chain([160, 200, 250, 4294967295]).collect() };
+            let ws: &'static [u32] = Box::leak(ws.into_boxed_slice());
             let bases = [
                 cfg::DEFAULT,
                 cfg::DEFAULT.with(|c| c.begin = cfg::BeginStyle::AlwaysWrap),
@@ -1247,11 +1262,34 @@ pub fn families(check: &str, tier: &str) -> Vec<Box<dyn Family>> {
             let d = if quick { 2 } else { 3 };
             let nb = if quick { 2 } else { 4 };
             vec![
-                pf("c11", &g(d), d, &bases[..if quick { 2 } else { 2 }], Box::new(move |_g, toks, c, ctx| {
+                pf("c11", &g(d), d, &bases[..1], Box::new(move |_g, toks, c, ctx| {
                     let t = progs::base_texts(toks);
-                    o2::c11(&t[1], ws, c, ctx);
+                    o2::c11_dense(&t[1], ws, c, c11_tag(toks), ctx);
                 })),
-                sf("c11", &wf_seeds(), &bases[..nb], Box::new(move |s, c, ctx| o2::c11(&s.text, ws, c, ctx))),
+                pf("c11", &g(2), 2, &bases[1..nb], Box::new(move |_g, toks, c, ctx| {
+                    let t = progs::base_texts(toks);
+                    o2::c11_dense(&t[1], ws, c, c11_tag(toks), ctx);
+                })),
+                pf("c11comments", &g(1), 1, &bases[..nb], Box::new(move |_g, toks, c, ctx| {
+                    // trailing and own-line comments in every gap (un-normalised ones included)
+                    use crate::layout::{self, Base};
+                    let l0 = layout::base_gaps(toks, Base::L0);
+                    let frozen = layout::frozen_gaps(toks);
+                    let mut first = true;
+                    for i in 1..toks.len() {
+                        if frozen[i] {
+                            continue;
+                        }
+                        for (k, p) in [(2usize, 2usize), (3, 2), (0, 0), (2, 1)] {
+                            if !first {
+                                ctx.sub_eval();
+                            }
+                            first = false;
+                            o2::c11_dense(&layout::with_comment(toks, &l0, i, k, p), ws, c, c11_tag(toks), ctx);
+                        }
+                    }
+                })),
+                sf("c11", &wf_seeds(), &bases[..nb], Box::new(move |s, c, ctx| o2::c11_dense(&s.text, ws, c, None, ctx))),
             ]
         }
         "C13" => {
